@@ -17,10 +17,10 @@ def model_runs(ctx, calls_quick=3, calls_thorough=4):
     ctx.mc("HDWallet", cfg, label="2 threads, full + watch-only wallet, generators, scramble: all histories up to the call bound",
            timeout=3000)
     # action labels from a reduced instance (the labelled graph of the full model is large)
-    small = core.cfg_of("HDWallet.cfg").replace("MaxCalls = 4", "MaxCalls = 3").replace('Threads = {"t1", "t2"}', 'Threads = {"t1"}')
+    small = core.cfg_of("HDWallet.cfg").replace("MaxCalls = 4", "MaxCalls = 2").replace('Threads = {"t1", "t2"}', 'Threads = {"t1"}')
     ctx.mc("HDWallet", small, coverage=True, label="action-label run (1 thread, 3 calls)")
     ctx.require_actions("HDWallet", ["CkdCompute", "CkdAppend", "ByPath", "AddrReq", "ExtKeysReq", "PrivateReq", "GenNew",
-                                     "GenStep", "ImportWatch", "Scramble"])
+                                     "GenStep", "ImportWatch", "Scramble", "PaperReq"])
 
 
 def negative_tests(ctx, which):
